@@ -177,7 +177,7 @@ def gen_cases(rng, tier, budget_s):
     depth = 2 if quick else 3
     limit = 4 if quick else 6
     ncand = 5 if quick else 7
-    n_h = 900 if quick else 9000
+    n_h = 900 if quick else 6000
     cases, labels = [], []
     t0 = time.time()
     undefined = 0
@@ -218,10 +218,49 @@ def gen_cases(rng, tier, budget_s):
 SCOPE = {}
 
 
+def private_eval(prelude, check_fn, case_terms, tag, case_type, shard):
+    """common.coq_eval in a directory private to this process (other checks running at the same
+    time, or somebody tidying coq/Corr/gen, cannot take the case files away), with one retry of
+    shards whose file vanished or whose coqc died."""
+    import re
+    import shutil
+    from concurrent.futures import ThreadPoolExecutor
+    from common import GEN, JOBS, _eval_shard
+    d = os.path.join(GEN, f"C09_{os.getpid()}")
+    texts = {}
+    for k in range(0, len(case_terms), shard):
+        path = os.path.join(d, f"C09_{tag}_{k // shard}.v")
+        texts[path] = (k, prelude + "\n" + f"Definition cases : list ({case_type}) := [\n"
+                       + ";\n".join(case_terms[k:k + shard]) + "\n].\n"
+                       + f"Definition result := Eval vm_compute in (failing (map {check_fn} cases)).\nPrint result.\n")
+    res, logs, todo = [], [], list(texts)
+    for attempt in (1, 2):
+        os.makedirs(d, exist_ok=True)
+        for path in todo:
+            with open(path, "w") as fh:
+                fh.write(texts[path][1])
+        again = []
+        with ThreadPoolExecutor(max_workers=JOBS) as ex:
+            for path, rc, out in ex.map(_eval_shard, [(p,) for p in todo]):
+                m = re.search(r"result\s*=\s*(.*?)\s*:\s*list", out, re.S) if rc == 0 else None
+                if not m:
+                    if attempt == 1:
+                        again.append(path)
+                    else:
+                        logs.append(f"{path}: rc={rc}\n{out[:600]} ... {out[-600:]}")
+                    continue
+                for a, b in re.findall(r"\(\s*(\d+)%?n?a?t?,\s*(\d+)%?n?a?t?\s*\)", m.group(1)):
+                    res.append((texts[path][0] + int(a), int(b)))
+        todo = again
+        if not todo:
+            break
+    shutil.rmtree(d, ignore_errors=True)
+    return res, logs
+
+
 def evaluate(cases, tag="c", shard=60):
     """(failures [(index, code)], logs); SCOPE[tag] = calls per case inside the theorem's hypotheses"""
-    res, logs = coq_eval("C09", PRELUDE, "check_case_sc", [case_coq(c) for c in cases], shard=shard, tag=tag,
-                         case_type="case")
+    res, logs = private_eval(PRELUDE, "check_case_sc", [case_coq(c) for c in cases], tag, "case", shard)
     SCOPE[tag] = {i: v % 1000 for i, v in res}
     return [(i, v // 1000) for i, v in res if v >= 1000], logs
 
@@ -417,7 +456,7 @@ def main(tier, replay=None):
             c = observe(r["hier"], r["cls"], [(p, kw) for p, kw in r["calls"]])
             if c is not None:
                 corpus.append(c)
-    cases, labels, undefined = gen_cases(chk.rng, tier, 60 if tier == "quick" else 500)
+    cases, labels, undefined = gen_cases(chk.rng, tier, 60 if tier == "quick" else 300)
     cases = corpus + cases
     labels = ["corpus"] * len(corpus) + labels
     t_gen = time.time() - t0
